@@ -38,7 +38,7 @@ SHAPES = [("cat", "cat")] * 5 + [("mr", "cat"), ("cat", "mr"), ("cai", "cac"), (
 def case_st(draw, shapes):
     numeric = draw(st.sampled_from(["some", "some", "all", "none"]))
     sc = draw(scen.scenario_st(shapes, measure="none", numeric=numeric, max_valid=5,
-                               weight_kinds=("none", "none", "int", "int", "dyadic"),
+                               weight_kinds=("none", "none", "int", "dyadic", "tenths"),
                                skew=draw(st.booleans())))
     tx, inforce = draw(xforms.slice_insertions_st(sc, where="either", max_ins=3,
                                                   allow_malformed=False, allow_diff=True))
